@@ -242,6 +242,21 @@ def d3(ctx, prog, s):
     for a in ('frame', 'preprocesses', '_ths'):
         stt = [n for n in ast.walk(init.node) if isinstance(n, ast.Assign) and self_attr(n.targets[0]) == a]
         ctx.check(len(stt) == 1 and norm(stt[0].value) == a.lstrip('_'), 'C02-D3', f'{init.key}::self.{a}', f'the iterable does not keep `{a.lstrip("_")}` as given', f'`{a}` kept as given', init.where())
+    # the wrapper of one batch keeps what it is given as well
+    w0 = prog.need_class(CT, '_TracesBatchWrapper').methods.get('__init__')
+    if w0 is None:
+        ctx.undecided('C02-D3', f'{CT}:_TracesBatchWrapper.__init__::keeps', 'the batch wrapper has no constructor of its own', s.where())
+    else:
+        for a in ('ths', 'frame', 'preprocesses'):
+            stt = [n for n in ast.walk(w0.node) if isinstance(n, ast.Assign) and self_attr(n.targets[0]) == a]
+            reb = [n for n in ast.walk(w0.node) if isinstance(n, ast.Assign) and isinstance(n.targets[0], ast.Name) and n.targets[0].id == a]
+            kinds_ = [astutil.passthrough_kind(n.value, a) for n in stt + reb]
+            k_ = f'{w0.key}::self.{a}'
+            if len(stt) != 1 or 'unknown' in kinds_:
+                ctx.undecided('C02-D3', k_, f'how the batch wrapper stores `{a}` (`{norm((stt + reb)[kinds_.index("unknown")].value)[:60] if "unknown" in kinds_ else "?"}`) is not understood: '
+                              'index lists must be applied as given (order and repetitions included)', w0.where())
+            else:
+                ctx.check('derived' not in kinds_, 'C02-D3', k_, f'the batch wrapper transforms `{a}` before it is stored', f'`{a}` kept as given', w0.where())
 
 
 def d4(ctx, prog):
